@@ -12,6 +12,7 @@ import (
 	"os"
 	"os/exec"
 	"path/filepath"
+	"strings"
 	"time"
 
 	"google.golang.org/grpc"
@@ -21,6 +22,7 @@ import (
 	"github.com/lindb/lindb/coordinator/storage"
 	"github.com/lindb/lindb/models"
 	"github.com/lindb/lindb/pkg/queue"
+	"github.com/lindb/lindb/pkg/queue/page"
 	"github.com/lindb/lindb/pkg/timeutil"
 	protoReplicaV1 "github.com/lindb/lindb/proto/gen/v1/replica"
 	"github.com/lindb/lindb/replica"
@@ -42,16 +44,16 @@ func (fakeDatabase) Name() string { return "db" }
 
 type fakeShard struct{ tsdb.Shard }
 
-func (fakeShard) Database() tsdb.Database  { return fakeDatabase{} }
-func (fakeShard) ShardID() models.ShardID  { return 1 }
-func (fakeShard) Indicator() string        { return "db/1" }
+func (fakeShard) Database() tsdb.Database { return fakeDatabase{} }
+func (fakeShard) ShardID() models.ShardID { return 1 }
+func (fakeShard) Indicator() string       { return "db/1" }
 
 type fakeFamily struct{ tsdb.DataFamily }
 
-func (fakeFamily) TimeRange() timeutil.TimeRange       { return timeutil.TimeRange{Start: 0, End: 3600000} }
+func (fakeFamily) TimeRange() timeutil.TimeRange      { return timeutil.TimeRange{Start: 0, End: 3600000} }
 func (fakeFamily) AckSequence(int32, func(seq int64)) {}
-func (fakeFamily) Retain()                             {}
-func (fakeFamily) Release()                            {}
+func (fakeFamily) Retain()                            {}
+func (fakeFamily) Release()                           {}
 
 type stateMgr struct {
 	storage.StateManager
@@ -62,7 +64,9 @@ type stateMgr struct {
 func (m *stateMgr) GetLiveNode(id models.NodeID) (models.StatefulNode, bool) {
 	return models.StatefulNode{ID: id}, m.live
 }
-func (m *stateMgr) WatchNodeStateChangeEvent(_ models.NodeID, fn func(models.NodeStateType)) { m.fn = fn }
+func (m *stateMgr) WatchNodeStateChangeEvent(_ models.NodeID, fn func(models.NodeStateType)) {
+	m.fn = fn
+}
 
 // follower side: the real handler over a fake WAL manager that returns the current follower partition
 type walMgr struct {
@@ -260,7 +264,7 @@ func (w *world) closeFollower() {
 }
 
 func msgID(b []byte) int {
-	if len(b) != 8 {
+	if len(b) < 8 {
 		return -1
 	}
 	return int(binary.LittleEndian.Uint64(b))
@@ -304,6 +308,10 @@ func (e evJ) coq() string {
 		return "LAppend"
 	case "step":
 		return fmt.Sprintf("Step %s %s", vh.Bool(e.Send), vh.Bool(e.Recv))
+	case "stepfail":
+		return "StepAppendFail"
+	case "bigappend":
+		return "LAppend"
 	case "handshake":
 		return "Handshake"
 	case "frestart":
@@ -338,11 +346,30 @@ func (w *world) apply(e evJ) bool {
 			w.fail("WriteLog", err)
 		}
 		w.fresh++
-	case "step":
+	case "bigappend":
+		// 16 MiB: eight of them fill a data page of the log exactly, the ninth needs a new page
+		b := make([]byte, 16<<20)
+		binary.LittleEndian.PutUint64(b[:8], w.fresh)
+		if err := w.lPart.WriteLog(b); err != nil {
+			w.fail("WriteLog", err)
+		}
+		w.fresh++
+	case "step", "stepfail":
 		if w.pending != nil {
 			return false
 		}
 		w.sendOK, w.recvOK = e.Send, e.Recv
+		if e.K == "stepfail" {
+			// the follower's log cannot get its next data page once (disk full, too many open files, ...)
+			w.sendOK, w.recvOK = true, true
+			failPageUnder, failFired = filepath.Join(w.dirF, "data"), false
+			defer func() {
+				if !failFired {
+					w.fail("stepfail", fmt.Errorf("the injected page failure did not fire (the follower's append needed no new page)"))
+				}
+				failPageUnder = ""
+			}()
+		}
 		if !ready && !w.sm.live {
 			// IsReady blocks until the follower is online again: the step stays pending
 			done := make(chan struct{})
@@ -574,7 +601,33 @@ func rep(e evJ, n int) []evJ {
 	return out
 }
 
+// page factories of the queues: the follower's data pages can be made to fail once
+var (
+	failPageUnder string
+	failFired     bool
+)
+
+type ffactory struct {
+	page.Factory
+	path string
+}
+
+func (f ffactory) AcquirePage(index int64) (page.MappedPage, error) {
+	if failPageUnder != "" && !failFired && index >= 1 && strings.HasPrefix(f.path, failPageUnder) {
+		failFired = true
+		return nil, fmt.Errorf("injected: cannot create page %d under %s", index, f.path)
+	}
+	return f.Factory.AcquirePage(index)
+}
+
 func main() {
+	queue.VerifSetPageFactory(func(path string, ps int) (page.Factory, error) {
+		f, err := page.NewFactory(path, ps)
+		if err != nil {
+			return nil, err
+		}
+		return ffactory{f, path}, nil
+	})
 	cfg := vh.ParseFlags()
 	r := vh.NewRand(cfg.Seed)
 	out := vh.NewOut(cfg.Out, "From Coq Require Import List ZArith Bool.\nImport ListNotations.\nFrom LinDBV.C08 Require Import Model Check.\nOpen Scope Z_scope.\n")
@@ -607,6 +660,12 @@ func main() {
 	id++
 	runHistory(out, root, id, "step blocked while the follower is offline", "", true,
 		cat(rep(ap, 2), []evJ{hs, st, {K: "offline"}, {K: "frestart"}, st, st, ap, {K: "online"}, st, st}))
+	id++
+	// the follower's log cannot create its second data page when the ninth 16 MiB message arrives: the leader must not count
+	// it as acknowledged; after a dropped connection the handshake resumes at that very message
+	big := evJ{K: "bigappend"}
+	runHistory(out, root, id, "the follower's append fails at a data page boundary", "", true,
+		cat(rep(big, 9), []evJ{hs}, rep(st, 8), []evJ{{K: "stepfail"}, ap, st, {K: "step", Send: false, Recv: true}, st, st, st, ap, st}))
 	id++
 	for i := 0; i < cfg.N; i++ {
 		runHistory(out, root, id, "random", "", true, randomHistory(r))
